@@ -108,13 +108,33 @@ def _worker_init(scratch, env):
     signal.signal(signal.SIGINT, signal.SIG_IGN)
 
 
+CURRENT_TASK = None  # (modname, funcname, payload) of the task this worker is executing
+TASK_HISTORY = []  # every task this worker process has executed so far, in order
+
+
+def run_task_sequence(tasks):
+    """Worker: execute a recorded sequence of tasks in this (fresh) process; returns the last result."""
+    res = None
+    for t in tasks:
+        status, res = _dispatch(tuple(t))
+        if status != "ok":
+            raise RuntimeError(res)
+    return res
+
+
 def _dispatch(task):
+    global CURRENT_TASK
     modname, funcname, payload = task
     try:
         mod = importlib.import_module(modname)
+        CURRENT_TASK = task if len(repr(payload)) < 2000 else None
+        if CURRENT_TASK is not None:
+            TASK_HISTORY.append(list(task))
         return ("ok", getattr(mod, funcname)(payload))
     except BaseException:
         return ("err", traceback.format_exc())
+    finally:
+        CURRENT_TASK = None
 
 
 class HarnessError(Exception):
@@ -166,6 +186,23 @@ class Pool:
         payloads = [dict(base_payload, shard=i, nshards=n) for i in range(n)]
         return self.map(modname, funcname, payloads)
 
+    def map_fresh(self, modname, funcname, payloads):
+        """Like map, but every task runs in a process of its own that has executed nothing else."""
+        scratch = setup_env()
+        env = {k: os.environ[k] for k in ("VERIF_REPO", "VERIF_SCRATCH", "PYTHONHASHSEED", "MPLBACKEND", "NUMBA_NUM_THREADS", "VERIF_TIER", "VERIF_SEED")
+               if k in os.environ}
+        ex = ProcessPoolExecutor(max_workers=self.n, mp_context=mp.get_context("spawn"), initializer=_worker_init,
+                                 initargs=(scratch, env), max_tasks_per_child=1)
+        try:
+            out = []
+            for status, res in ex.map(_dispatch, [(modname, funcname, p) for p in payloads]):
+                if status != "ok":
+                    raise HarnessError("worker failed:\n" + res)
+                out.append(res)
+            return out
+        finally:
+            ex.shutdown(wait=True, cancel_futures=True)
+
     def close(self):
         if self._ex is not None:
             self._ex.shutdown(wait=True, cancel_futures=True)
@@ -174,7 +211,7 @@ class Pool:
 
 # ------------------------------------------------------------------- accumulators
 
-MAX_PER_SIG = 5
+MAX_PER_SIG = 24
 
 
 class Acc:
@@ -203,7 +240,13 @@ class Acc:
         self.vcount[sig] += 1
         lst = self.violations.setdefault(sig, [])
         if len(lst) < MAX_PER_SIG:
-            lst.append((idx, {"sig": sig, "case": case, "detail": detail}))
+            rec = {"sig": sig, "case": case, "detail": detail}
+            if CURRENT_TASK is not None:
+                # lets a violation that only occurs after the preceding cases of its shard (state kept by the
+                # library between calls) be reproduced by re-running that shard in a fresh process
+                rec["task"] = list(CURRENT_TASK)
+                rec["task_history"] = [list(t) for t in TASK_HISTORY[-64:]]
+            lst.append((idx, rec))
 
     def sample(self, s, limit=3):
         if len(self.samples) < limit:
@@ -242,6 +285,9 @@ class Acc:
         for sig, lst in self.violations.items():
             idx, v = lst[0]
             v = dict(v, count=self.vcount[sig], idx=idx)
+            # further recorded cases with the same signature, in enumeration order: used when the first one turns out to
+            # depend on what the worker process had executed before it
+            v["alternates"] = [w["case"] for _, w in lst[1:]]
             out.append(v)
         out.sort(key=lambda v: _idx_key(v["idx"]))
         return out
